@@ -114,7 +114,59 @@ class Executor:
 
     def in_extent(self, f: FuncInfo) -> bool:
         """f is the function the run started at, or a private helper that exists only for it (inlined by the executor)"""
-        return self.root is not None and any(f is x for x in self.extents.of(self.root))
+        f = getattr(f, '_specialised_from', f)
+        return self.root is not None and (any(f is x for x in self.extents.of(self.root)) or f.qualname in self._shared_inlined)
+
+    _shared_inlined: set = set()
+
+    _spec_cache: dict = {}
+
+    def _specialise(self, helper: FuncInfo, call: ast.Call, caller: FuncInfo) -> FuncInfo:
+        """The helper with its parameters replaced by the argument expressions of this call, where the argument is a STABLE
+        expression: the receiver itself (`self` / `ctx`) or an attribute chain rooted at it (`self.states.undo`, a bound method
+        handed over as a value).  `_leave(ctx, leave)` called as `_leave(self, self.states.merge)` is then read as the code a
+        maintainer moved out: `self.state...`, `self.states.merge()`.  Parameters the helper assigns to are left alone."""
+        params = [x.arg for x in helper.node.args.args]
+        is_method_call = isinstance(call.func, ast.Attribute)
+        if is_method_call and helper.cls is not None:
+            params = params[1:]  # self is bound by the call
+        stored = {n.id for n in ast.walk(helper.node) if isinstance(n, ast.Name) and isinstance(n.ctx, (ast.Store, ast.Del))}
+        mapping: dict[str, ast.expr] = {}
+
+        def stable(e: ast.expr) -> bool:
+            while isinstance(e, ast.Attribute):
+                e = e.value
+            return isinstance(e, ast.Name) and e.id in ('self', 'ctx', 'cls')
+        for prm, arg in zip(params, call.args):
+            if prm not in stored and stable(arg) and not (isinstance(arg, ast.Name) and arg.id == prm):
+                mapping[prm] = arg
+        for k in call.keywords:
+            if k.arg in params and k.arg not in stored and stable(k.value) and not (isinstance(k.value, ast.Name) and k.value.id == k.arg):
+                mapping[k.arg] = k.value
+        if not mapping:
+            return helper
+        key = (helper.qualname, tuple(sorted((k, ast.dump(v)) for k, v in mapping.items())))
+        hit = self._spec_cache.get(key)
+        if hit is not None:
+            return hit
+        import copy as _copy
+
+        class Sub(ast.NodeTransformer):
+            def visit_Name(self, n):
+                if isinstance(n.ctx, ast.Load) and n.id in mapping:
+                    return ast.copy_location(_copy.deepcopy(mapping[n.id]), n)
+                return n
+
+            def visit_FunctionDef(self, n):
+                return n if n is not node else self.generic_visit(n)
+            visit_Lambda = visit_AsyncFunctionDef = visit_FunctionDef
+        node = _copy.deepcopy(helper.node)
+        node.body = [Sub().visit(st) for st in node.body]
+        ast.fix_missing_locations(node)
+        clone = FuncInfo(helper.qualname, helper.module, node, helper.cls, helper.parent)
+        object.__setattr__(clone, '_specialised_from', helper)
+        self._spec_cache[key] = clone
+        return clone
 
     # ------------------------------------------------------------ exceptions
     def exc_class(self, fn: FuncInfo, node: ast.expr) -> list[str]:
@@ -126,6 +178,9 @@ class Executor:
             return out
         if isinstance(node, ast.BinOp) and isinstance(node.op, ast.BitOr):
             return self.exc_class(fn, node.left) + self.exc_class(fn, node.right)
+        if isinstance(node, ast.Name) and node.id in fn.module.assigns and isinstance(fn.module.assigns[node.id], (ast.Tuple, ast.BinOp)):
+            # a module-level constant holding the classes: _CORRUPT_ROW_ERRORS = (BadPacketError, ValueError, ...)
+            return self.exc_class(fn, fn.module.assigns[node.id])
         q = self.p.resolve_expr(fn.module, node)
         # follow module-level aliases such as FailedKeywordSemantics = KeywordError
         return [q]
@@ -223,6 +278,7 @@ class Executor:
         self.functions_run.add(fn.qualname)
         if depth == 0:
             self.root = fn
+            self._shared_inlined = set()
         ctx = _Ctx(fn=fn, hole=hole, depth=depth, handling=None, binds={})
         outs = self.block(ctx, fn.node.body, {(state, None)})
         res: set[Out] = set()
@@ -292,10 +348,17 @@ class Executor:
             return None
         if not getattr(self.sem, 'inline_helpers', True):
             return None
-        h = self.extents.helper_for_call(self.root, ctx.fn, call)
-        if h is None or h is ctx.fn:
+        cur = getattr(ctx.fn, '_specialised_from', ctx.fn)
+        h = self.extents.helper_for_call(self.root, cur, call)
+        if h is None:
+            # a private helper SHARED by several functions (group() and skipgroup() both leave through _leave_keeping_cut): it is
+            # not part of any one function's ownership extent, but its body runs in place all the same
+            h = self.extents.shared_helper_for_call(cur, call)
+            if h is not None:
+                self._shared_inlined.add(h.qualname)
+        if h is None or h is cur:
             return None
-        return h
+        return self._specialise(h, call, ctx.fn)
 
     def _then(self, outs: set[Out], k: Callable[[Any, Any], set[Out]]) -> set[Out]:
         res: set[Out] = set()
